@@ -545,6 +545,9 @@ func TestC11(t *testing.T) {
 		if i%10 == 1 {
 			c11partialDrain(rep, seed, i/10)
 		}
+		if i%40 == 22 {
+			c11manyFailures(rep, seed, i/40)
+		}
 		if i%20 == 19 {
 			c11clients(rep, seed, i/20)
 		}
@@ -681,6 +684,108 @@ func c11transient(rep *vh.Report, seed uint64, idx int) {
 	rep.Eval(1)
 	rep.Count("scenarios_transient_write_error", 1)
 	rep.Distinct("transient", idx, k, victim)
+}
+
+// c11manyFailures: a long-lived channel on which many items fail one by one over its life (items that cannot be encoded for
+// the link, large ones; transport writes that fail once) - never a backlog, every failure followed by a valid item. The
+// valid items keep arriving, each exactly once and in order, however many failures the channel has seen.
+func c11manyFailures(rep *vh.Report, seed uint64, idx int) {
+	if aborted() {
+		return
+	}
+	r := vh.Sub(seed, fmt.Sprintf("c11-manyfail-%d", idx))
+	hookReset(r.U64(), false, false)
+	v1 := idx%2 == 1
+	n := c13start(rep, 2, v1, false)
+	if n == nil {
+		return
+	}
+	n.cons.prop = "C11"
+	const fam = 0xC9
+	rounds := vh.Pick(260, 1500)
+	big := make([]byte, 255)
+	for i := range big {
+		big[i] = byte(1 + i%250)
+	}
+	var want []uint64
+	lostAt := -1
+	for i := 0; i < rounds && lostAt < 0; i++ {
+		switch i % 3 {
+		case 0: // an already encoded message whose id is not in the dialect: the writer cannot compute its checksum
+			_ = n.node.WriteMessageAll(&message.MessageRaw{ID: 99999, Payload: big})
+		case 1: // on a v1 link an id above 255; on a v2 link the same raw item to one channel
+			if v1 {
+				_ = n.node.WriteMessageAll(&MessageVfUid{Uid: 1, Kind: 1})
+			} else {
+				_ = n.node.WriteMessageTo(n.chans[0], &message.MessageRaw{ID: 99998, Payload: big})
+			}
+		case 2: // one failing transport write (255-byte item)
+			n.trs[0].FailWriteAt(n.trs[0].WriteCalls()+1, errWrite, false)
+			if v1 {
+				_ = n.node.WriteMessageTo(n.chans[0], &MessageVfLow{Uid: uint64(fam)<<56 | 1<<40 | uint64(i), Kind: 1})
+			} else {
+				_ = n.node.WriteMessageTo(n.chans[0], &message.MessageRaw{ID: 5000, Payload: big})
+			}
+		}
+		uid := uint64(fam)<<56 | uint64(i+1)
+		var m message.Message = &MessageVfUid{Uid: uid, Kind: 1}
+		if v1 {
+			m = &MessageVfLow{Uid: uid, Kind: 1}
+		}
+		_ = n.node.WriteMessageAll(m)
+		want = append(want, uid)
+		ok := waitFor(func() bool {
+			for _, tr := range n.trs {
+				found := false
+				nw := tr.NWrites()
+				for j := nw - 1; j >= 0 && j >= nw-8 && !found; j-- {
+					w := tr.WriteAt(j)
+					if f, _, st := ref.ParseAt(w.Data, 0); st == ref.ParseOK && !w.Failed {
+						if u, ok := uidOfWire(f); ok && u == uid {
+							found = true
+						}
+					}
+				}
+				if !found {
+					return false
+				}
+			}
+			return true
+		}, func() int64 { return int64(n.trs[0].WriteCalls() + n.trs[1].WriteCalls()) }, 400*time.Millisecond)
+		if !ok {
+			lostAt = i
+		}
+	}
+	closed := false
+	for _, ci := range n.cons.allChannels() {
+		if n.cons.snapshot(ci).State == 2 {
+			closed = true
+		}
+	}
+	rep.Eval(1)
+	rep.Count("scenarios_many_failures", 1)
+	if lostAt >= 0 && !closed {
+		rep.Violation("what=lost ep=custom", fmt.Sprintf("after %d failed items on a long-lived open channel with an empty backlog, a valid item written with WriteMessageAll never came out", lostAt+1),
+			map[string]interface{}{"round": lostAt, "v1_link": v1, "backlog_0": n.chans[0].VerifBacklog(), "backlog_1": n.chans[1].VerifBacklog()})
+	} else if !closed {
+		for ti, tr := range n.trs {
+			acc, _ := wireUIDs(tr, fam)
+			var got []uint64
+			for _, u := range acc {
+				if u>>40&0xFFFF == 0 {
+					got = append(got, u)
+				}
+			}
+			if !eqU64(got, want) {
+				rep.Violation("what="+classifySeq(got, want)+" ep=custom", fmt.Sprintf("channel %d of a node whose items failed one by one %d times: %d valid items came out for %d written", ti, rounds, len(got), len(want)), nil)
+			}
+		}
+	}
+	if !safeClose(rep, n.node) {
+		return
+	}
+	<-n.cons.done
+	rep.Distinct("manyfail", idx)
 }
 
 // c11stale: a one-channel-at-a-time endpoint whose channel closed and re-opened. The old channel object is a closed
